@@ -1,7 +1,7 @@
 #!/bin/bash
 # confirmation of the C20 seeded changes (C demos): usage lib/confirm_seed_c20.sh <n>
 set -u
-n="$1"; wt=${SEED_ROOT:-/tmp/seed}/C20; sd=$wt/SEEDED; out=/verif/seeded/C20-${OUT_TAG:-}$n
+n="$1"; wt=${SEED_ROOT:-/tmp/seed}/${PROP:-C20}; sd=$wt/SEEDED; out=/verif/seeded/${PROP:-C20}-${OUT_TAG:-}$n
 mkdir -p "$out"; cp "$sd/patch$n.diff" "$out/patch.diff"; cp "$sd/demo$n.c" "$out/demo.c"; cp "$sd/run_demo.sh" "$out/run_demo.sh"; cp "$sd/NOTES.md" "$out/NOTES.md"
 export CARGO_NET_OFFLINE=true
 cd "$wt" || exit 2
